@@ -512,8 +512,11 @@ func (g *srvGen) opStats() {
 func (g *srvGen) opAuthServer() {
 	r := g.r
 	k := detKey(g.seed, 500+r.Intn(3))
-	loc := []string{"127.0.0.1", "", "example.org", strings.Repeat("a", 255), strings.Repeat("b", 256)}[r.Intn(5)]
+	loc := []string{myIP, "", "example.org", strings.Repeat("a", 255), strings.Repeat("b", 256)}[r.Intn(5)]
 	as := server.AuthorizedServer{PublicKey: k.Pub, Banned: r.Chance(40), Location: loc, HttpPort: closedPortOnce(), TcpPort: uint16(r.Intn(65536)), UdpPort: uint16(r.Intn(65536))}
+	if loc != myIP {
+		as.HttpPort = 1 // an empty host means "this machine": never a port that another process may own
+	}
 	as.GCAAuthorization = glow.Sign(as.SigningBytes(), g.signer(r.pick([]int{80, 8, 6, 6})))
 	g.s.AuthServer(as)
 }
@@ -538,7 +541,7 @@ func (g *srvGen) opMigrate() {
 	}
 	em := server.EquipmentMigration{Equipment: eq, NewGCA: newGCA.Pub, NewShortID: uint32(r.Intn(100))}
 	for i := 0; i < r.Intn(3); i++ {
-		loc := []string{"127.0.0.1", "", strings.Repeat("c", 255), strings.Repeat("d", 256), strings.Repeat("e", 300), "example.org"}[r.pick([]int{50, 8, 12, 12, 8, 10})]
+		loc := []string{myIP, "", strings.Repeat("c", 255), strings.Repeat("d", 256), strings.Repeat("e", 300), "example.org"}[r.pick([]int{50, 8, 12, 12, 8, 10})]
 		as := server.AuthorizedServer{PublicKey: detKey(g.seed, 600+i).Pub, Location: loc, HttpPort: 1, TcpPort: 2, UdpPort: 3, Banned: r.Chance(20)}
 		signer := newGCA.Priv
 		if r.Chance(15) {
@@ -784,7 +787,7 @@ func (g *srvGen) opInject() {
 		}
 	default: // server authorization: list update and equipment listing are separate sections
 		k := detKey(g.seed, 500+r.Intn(3))
-		as := server.AuthorizedServer{PublicKey: k.Pub, Banned: r.Chance(40), Location: "127.0.0.1", HttpPort: closedPortOnce(), TcpPort: 1, UdpPort: 2}
+		as := server.AuthorizedServer{PublicKey: k.Pub, Banned: r.Chance(40), Location: myIP, HttpPort: closedPortOnce(), TcpPort: 1, UdpPort: 2}
 		as.GCAAuthorization = glow.Sign(as.SigningBytes(), g.s.E.GCA.Priv)
 		run("authservers-between", func() {
 			snap := g.s.E.S.VerifSnapshot()
